@@ -19,9 +19,10 @@ import treegen
 # per-property profile: MC configs (Which, MaxOps, MaxT, Slice), generator emphasis
 PROFILES = {
     "C01": dict(mc=[("N1zero", 2, 2, 3)], mc_thorough=[("N1zero", 2, 2, 1), ("F2fix", 2, 2, 2), ("N1fix", 2, 2, 3), ("F2zero", 2, 3, 1)],
-                gen=dict(nops=12), n=(240, 4000), lazy=0.4),
+                gen=dict(nops=12, zerodip=True, trees=["F2", "F3", "N1", "S2", "N2", "F2", "F3", "N1", "S2", "N2", "FI3", "FI4", "MC3", "MCN"]), n=(240, 4000), lazy=0.4),
     "C02": dict(mc=[("F2fix", 2, 2, 1)], mc_thorough=[("F2fix", 2, 2, 2), ("F2tier", 2, 2, 1), ("N1fix", 2, 2, 3), ("F2unit", 2, 3, 1), ("FIfix", 2, 2, 1)],
-                gen=dict(nops=12, trees=["F2", "F3", "N1", "S2", "N2", "FI3", "FI4", "FI4", "MC3", "MCN"], zerodip=True), n=(240, 4000), lazy=0.2),
+                gen=dict(nops=12, trees=["F2", "F3", "N1", "S2", "N2", "FI3", "FI4", "FI4", "MC3", "MCN"], zerodip=True,
+                         mix=[{}, {}, {}, {"trees": ["MC3", "MCN", "MC3"], "crash": True, "leverage": True, "zerodip": False}]), n=(240, 4000), lazy=0.2),
     "C03": dict(mc=[("F2zero", 2, 2, 1)], mc_thorough=[("F2zero", 2, 3, 1), ("F2zero", 3, 2, 1), ("F2fix", 2, 2, 2), ("N1zero", 2, 2, 3)],
                 gen=dict(nops=14, p_flow=0.45, trees=["F2", "F3", "N1", "S2", "N2", "MC3", "MCN", "MC3"]), n=(240, 4000), lazy=0.0),
     "C07": dict(mc=[("F2tier", 2, 2, 1)], mc_thorough=[("F2tier", 2, 2, 2), ("F2unit", 2, 2, 1), ("N1fix", 2, 2, 3), ("F2fix", 2, 3, 1)],
@@ -123,6 +124,10 @@ def _run_one(args):
 def _run_one_fast(args):
     seed, idx, kw, lazy_p = args
     rng = random.Random((seed * 1000003 + idx) & 0xFFFFFFFF)
+    if "mix" in kw:  # every len(mix)-th scenario takes one of the override sets
+        kw = dict(kw)
+        mix = kw.pop("mix")
+        kw.update(mix[idx % len(mix)])
     ckw = {k: v for k, v in kw.items() if k in ("tree", "T", "comm", "spread", "integer", "late", "crash", "D", "delist", "zerodip", "penny")}
     gkw = {k: v for k, v in kw.items() if k in treegen.GEN_KEYS}
     if "trees" in kw:
